@@ -6,6 +6,7 @@
 From Verif Require Import Common.Base C20.Model C20.Proofs1 C20.Proofs2 C20.Proofs3 C20.Proofs4.
 (* obligations tying the model's State codes / names / GetState / method set to the translated Go source *)
 From Verif Require C20.Tie.
+From Verif Require Import C20.ObsCheck C20.ObsSound.
 
 (* ---- Starting -> Running -> Closing -> Closed --------------------------------------------------- *)
 (* The sequence of setCollectorState values is a word of the automaton [pdelta]:
@@ -255,6 +256,46 @@ Theorem stop_request_ends_run : forall o s bs,
   ((forall b, enabled s' (LRun b) = false) -> (exists k, st_pc s' = PDone k) \/ st_pc s' = PStuck).
 Proof. exact stop_pending_ends_run_l. Qed.
 
+(* ---- the decidable checker run over every OBSERVED history -------------------------------------------- *)
+(* ObsCheck.obs_verdict (evaluated by the check driver on the event log of every recorded case,
+   whatever the model says) returns 0 exactly when the observed log satisfies: one live service at a
+   time; no component shut down twice; nothing created or started after a failed Shutdown; no
+   provider shut down twice; nothing left started once Run has returned; after a stopped run every
+   started component and every registered provider shut down exactly once. *)
+Theorem observed_clause_checker_is_sound : forall nprov lg ret,
+  obs_verdict nprov lg ret = 0 <->
+  let log := map decode lg in let pl := flat_map decode_p lg in
+  one_live_clause [] log /\
+  (forall g c, count (is_shut g c) log <= 1) /\
+  after_failed_clause log /\
+  prov_once_b pl = true /\
+  (ret_class ret <> 0 -> live_after [] log = []) /\
+  (is_stopped ret = true -> stopped_exact_b nprov log pl = true).
+Proof. exact obs_verdict_sound. Qed.
+
+(* ---- "completely shut down" / "Run returns the error" --------------------------------------------------- *)
+(* In every run: once a component has failed to shut down (the retiring service is then NOT
+   completely shut down) nothing is created or started any more, and Run has returned. *)
+Theorem no_bringup_after_failed_shutdown : forall o ls,
+  after_failed_clause (snd (run o init ls)) /\
+  (existsb is_failed_shut (snd (run o init ls)) = true -> exists k, st_pc (fst (run o init ls)) = PDone k).
+Proof.
+  exact (fun o ls => conj (proj1 (after_failed_iff _) (proj1 (failed_shutdown_global o ls)))
+                          (proj2 (failed_shutdown_global o ls))).
+Qed.
+
+(* When the INITIAL configuration cannot be brought up the run ends in Closed (Starting -> Closed). *)
+Theorem initial_failure_ends_closed : forall o ls,
+  st_pc (fst (run o init ls)) = PDone DInitFail -> st_phase (fst (run o init ls)) = Closed.
+Proof. exact initial_failure_closed_l. Qed.
+
+(* A run that ended because the initial / reloaded configuration could not be brought up or the
+   retiring service failed to shut down returned exactly one value, and that value is an error. *)
+Theorem failed_run_returns_the_error : forall o ls k,
+  st_pc (fst (run o init ls)) = PDone k -> k <> DStopped ->
+  exists l1 e l2, snd (run o init ls) = l1 ++ AReturn e :: l2 /\ e <> RNil /\ count is_return (l1 ++ l2) = 0.
+Proof. exact failed_run_returns_error_l. Qed.
+
 Print Assumptions phase_order.
 Print Assumptions phase_order_in_words.
 Print Assumptions one_live_service.
@@ -284,3 +325,7 @@ Print Assumptions Tie.state_codes_are_the_go_constants.
 Print Assumptions Tie.state_names_are_the_go_strings.
 Print Assumptions Tie.observed_state_is_the_stored_word.
 Print Assumptions Tie.collector_api_is_the_modelled_one.
+Print Assumptions observed_clause_checker_is_sound.
+Print Assumptions no_bringup_after_failed_shutdown.
+Print Assumptions failed_run_returns_the_error.
+Print Assumptions initial_failure_ends_closed.
